@@ -77,9 +77,9 @@ def h_roundtrip(n):
 
 
 def h_fault(n, kind, t=0):
-    """kind: ct (xor difference over the ciphertext), sig, key (hmac key difference), trunc_ct, trunc_sig, nokey"""
+    """kind: ct (xor difference over the ciphertext), sig, key (hmac key difference), trunc_ct, trunc_sig, ext_ct, ext_sig (bytes appended), nokey"""
     def body(ctx):
-        env = new_env(a_hmac=kind in ("ct", "key", "trunc_ct"))
+        env = new_env(a_hmac=kind in ("ct", "key", "trunc_ct", "ext_ct"))
         pt, key, hk, iv = sym_bytes("pt", n), sym_bytes("key", 16), sym_bytes("hmac_key", 16), sym_bytes("iv", 16)
         pkt = call(c2.encrypt_packet, pt, key, hk, iv)
         ct, sig = as_bytes(pkt.ciphertext), as_bytes(pkt.signature)
@@ -103,6 +103,11 @@ def h_fault(n, kind, t=0):
             ct = SymBytes(ct.cells[:len(ct.cells) - t])
         elif kind == "trunc_sig":
             sig = SymBytes(sig.cells[:16 - t])
+        elif kind == "ext_ct":
+            # t arbitrary bytes appended to an authentic ciphertext, original signature (1..15: a trailing partial AES block; 16: a whole one)
+            ct = SymBytes(ct.cells + sym_bytes("extra", t).cells)
+        elif kind == "ext_sig":
+            sig = SymBytes(sig.cells + sym_bytes("extra", t).cells)
         elif kind == "nokey":
             hk2 = None if t == 0 else SymBytes([])
         bad = c2.EncryptedPacket(V.unwrap(ct) if is_native() else ct, V.unwrap(sig) if is_native() else sig)
@@ -180,6 +185,10 @@ def instances(tier):
         for t in ((1, 16) if q else (1, 2, 8, 15, 16)):
             out.append(Instance("fault trunc_ct by %d n=%d" % (t, n), h_fault(n, "trunc_ct", t), dict(kind="fault", fault="trunc_ct", t=t, n=n)))
             out.append(Instance("fault trunc_sig by %d n=%d" % (t, n), h_fault(n, "trunc_sig", t), dict(kind="fault", fault="trunc_sig", t=t, n=n)))
+        for t in ((1, 15, 16) if q else (1, 2, 8, 15, 16, 17)):
+            out.append(Instance("fault ext_ct by %d n=%d" % (t, n), h_fault(n, "ext_ct", t), dict(kind="fault", fault="ext_ct", t=t, n=n)))
+        for t in ((1,) if q else (1, 16)):
+            out.append(Instance("fault ext_sig by %d n=%d" % (t, n), h_fault(n, "ext_sig", t), dict(kind="fault", fault="ext_sig", t=t, n=n)))
         for t in (0, 1):
             out.append(Instance("fault hmac_key=%s n=%d" % ("None" if t == 0 else "b''", n), h_fault(n, "nokey", t),
                                 dict(kind="fault", fault="nokey", variant=t, n=n)))
